@@ -1,8 +1,13 @@
 """C06 — force constants <-> dynamical matrices at commensurate points."""
 from contracts import c_d2f as D2F
 
+from contracts import py_d2f as PD
+from contracts import py_phonopy as PP
+
 
 def build(run):
     ij = D2F.ij_contract()
     run.verify_c([ij])
     run.verify_c([D2F.driver_contract()], registry={"transform_dynmat_to_fc_ij": ij})
+    PD.commensurate_points_matrix(run)
+    PP.copy_forwards_options(run)          # ph2ph builds its two working objects with _copy
